@@ -14,7 +14,8 @@ EXPLANATION = (
     "before it matches the context pattern print_xml expects for that node; R4 sibling deviance: every `&` counter "
     "flows into DerefAddressDepth; R5 sibling agreement of the two parsers: token->operator tables per parsing "
     "function, precedence layering (which function takes operands from which), declaration starters, MAX_* depth "
-    "constants. Not decided: tree equality with the first generation on all programs.")
+    "constants. Not decided: tree equality with the first generation on all programs."
+    " ADDED LATER: R7 both parsers accept the same shapes of comma-separated lists (empty, trailing comma, no comma after the last item, never two items without a comma), decided by reachability between token tests and item-parser calls on the MIR; R5 also: the same largest number of reference steps; R8 literal delimiters are stripped exactly once in the XML dump.")
 
 PX = "delta::parser::parse_tree::parse_tree_xml::print_xml"
 PN = "delta::parser::parse_node::ParseNode"
